@@ -153,6 +153,32 @@ def check(R):
         R.expect('P5', te.fn, 'no width-choosing writer is used to re-encode a decoded element', not chooser, 'raw_value / write_raw_data only',
                  f'{chooser} picks the shortest length / integer form: an element decoded from a non-minimal encoding is re-encoded to different bytes')
         R.expect('P10', te.fn, 'the length prefix is re-emitted with the source element\'s size class', 'tlv::TLVValueType::variable_size_len' in te.calls_summary, 'variable_size_len()', 'size class not consulted')
+        # the iterator-based encoder walks NESTED containers completely: in TLVSequenceTLVIter::try_next an end-of-container marker ends
+        # the iteration only at nesting 0 (the marker of the enclosing container); an inner one is emitted and the walk goes on, with the
+        # nesting counter going up on every container start and down on every inner end
+        tn = R.body('tlv::read::TLVSequenceTLVIter::try_next')
+        NEST = 'nesting:tlv::read::TLVSequenceTLVIter'
+        nones = [bb for bb, k, pl_ in prims.result_defs(tn) if k == 'agg' and pl_.get('var') == 'Ok' and any(x[0] == 'agg' and x[2] == 'None' for x in prims.sources(tn, pl_['a'][0]))]
+        R.floor('Ok(None) results of TLVSequenceTLVIter::try_next', len(nones), 1)
+        ends = tn.calls('tlv::TLVControl::is_container_end')
+        if not ends:
+            R.fail('P2', tn.fn, 'stop at an end-of-container marker cut-by nesting == 0', 'try_next does not test for the end-of-container marker itself (it relies on current(), which answers EMPTY for EVERY end marker): '
+                   'the walk stops at the first inner end marker and everything after the first nested container is dropped', f'{tn.file}:{tn.line}')
+        else:
+            at_zero = set()
+            for bb, te_, fe_ in prims.cmp_guard_edges(tn, 'Eq', lambda s_: any(f == NEST for f in src_fields(s_)), lambda s_: 0 in src_consts(s_)):
+                at_zero |= te_
+            for bb, te_, fe_ in prims.cmp_guard_edges(tn, 'Gt', lambda s_: any(f == NEST for f in src_fields(s_)), lambda s_: 0 in src_consts(s_), symmetric=False):
+                at_zero |= fe_
+            for t in ends:
+                for (frm, to) in sorted(prims.track_result(F, tn, t).success):
+                    R.cut_from('P2', tn, to, 'stop at an end-of-container marker (Ok(None))', nones, 'it is the marker of the enclosing container (nesting == 0)', at_zero)
+            ups = [i for i, j, st in tn.stmts() if st[1].get('op') == 'bin' and st[1].get('b') in ('Add', 'AddWithOverflow') and any(f == NEST for f in src_fields(prims.sources(tn, st[1]['a'][0])))]
+            downs = [i for i, j, st in tn.stmts() if st[1].get('op') == 'bin' and st[1].get('b') in ('Sub', 'SubWithOverflow') and any(f == NEST for f in src_fields(prims.sources(tn, st[1]['a'][0])))]
+            R.floor('nesting += 1 in try_next', len(ups), 1)
+            R.floor('nesting -= 1 in try_next', len(downs), 1)
+            R.cut('P2', tn, 'enter a container (nesting += 1)', ups, 'the element is a container start', lambda: R.call_guard(tn, 'tlv::TLVControl::is_container_start'))
+            R.cut('P2', tn, 'leave a container (nesting -= 1)', downs, 'the element is an end-of-container marker', lambda: R.call_guard(tn, 'tlv::TLVControl::is_container_end'))
         for m, vt in sorted(VT.items()):
             b = R.body('tlv::write::TLVWrite::' + m)
             vts = sorted({st[1].get('var') for i, j, st in b.stmts() if st[1].get('op') == 'agg' and st[1].get('adt') == 'tlv::TLVValueType'})
